@@ -33,8 +33,8 @@ def _merge(*ds):
 
 PROPS = {
     'C01': {
-        'proofs': ['Ww.Proofs.C01'],
-        'gen_sections': ['Meta', 'pkg/session/data.go'],
+        'proofs': ['Ww.Proofs.C01', 'Ww.Proofs.GenTie.C03'],
+        'gen_sections': ['Meta', 'pkg/session/data.go', 'Dec/acrValidate', 'pkg/openid/acr/acr.go'],
         'drivers': [{'name': 'hist'}, {'name': 'meta'}],
         'reasons': ['C01.'],
         'class_fields': _merge(META_CLASS, HIST_CLASS),
@@ -69,8 +69,8 @@ PROPS = {
         'assumptions': ["H-AEAD"],
     },
     'C03': {
-        'proofs': ['Ww.Proofs.C03'],
-        'gen_sections': [],
+        'proofs': ['Ww.Proofs.C03', 'Ww.Proofs.GenTie.C03'],
+        'gen_sections': ['Dec/acrValidate', 'pkg/openid/acr/acr.go'],
         'drivers': [{'name': 'c03'}],
         'reasons': ['C03.'],
         'class_fields': {},
@@ -81,7 +81,7 @@ PROPS = {
         'level_text': "Proof: acceptIdToken = true implies every listed check (signature under a published key with that key's algorithm, so never none / symmetric-with-public; iss; aud contains client and no untrusted extra; "
                       "exp/iat/nbf within skew; nonce; sub; sid when required; acr present and at least the requested level, with the order substantial <= high and legacy names proved) - for every token, configuration and clock value. "
                       "The decision model is tied to the real callback (jwx verify/validate included) on the lattice; the Spec is evaluated on 'was a session created'.",
-        'level_note': "Trusted: Lean kernel; RSA/JWS and the jwx parser and validator (their accept/reject contract is what the lattice differential-tests, incl. alg confusion); the JWKS cache; AcceptableSkew read as 5 s (Gen.Consts).",
+        'level_note': "Trusted: Lean kernel; RSA/JWS and the jwx parser and validator (their accept/reject contract is what the lattice differential-tests, incl. alg confusion); the JWKS cache; AcceptableSkew read as 5 s (Gen.Consts). acr.Validate is machine-translated from acr.go on each run and the model's acrAccepts is PROVED equal to it (Ww.Proofs.GenTie.C03).",
         'technique': 'Lean 4 proof of the acceptance decision + really-signed fault lattice through the real callback',
         'trusted': ["H-JWS", "jwx v2.1.4 verify/validate contract (Appendix C)"],
         'assumptions': ["H-JWS"],
@@ -169,8 +169,8 @@ PROPS = {
         'assumptions': ["faults occur at store-command / provider-call boundaries"],
     },
     'C12': {
-        'proofs': ['Ww.Proofs.C12'],
-        'gen_sections': [],
+        'proofs': ['Ww.Proofs.C12', 'Ww.Proofs.GenTie.C12'],
+        'gen_sections': ['Dec/needsLogin', 'pkg/handler/autologin/autologin.go'],
         'drivers': [{'name': 'c12'}],
         'reasons': ['C12.'],
         'class_fields': {'glob': ['dm'], 'needslogin': ['nl'], 'alog': ['method', 'nav', 'authed', 'status', 'fwd', 'hasloc', 'prefix']},
@@ -182,14 +182,14 @@ PROPS = {
                       "NeedsLogin = false for an unauthenticated request iff some pattern Matches the path.Clean-ed path, which never contains a dot segment; the handler forwards an unauthenticated "
                       "request only if ignored. doublestar itself and the handler wiring are tied by differential runs (incl. the real router) and the Spec is evaluated on every implementation answer.",
         'level_note': "Trusted: Lean kernel; doublestar modelled for the alphabet {literal,*,**,/} and for pattern tails it compares literally at end-of-name (see DESIGN Appendix C: ***, x*/**, trailing slash are outside the contract and skipped); "
-                      "net/url path decoding; chi routing (C15).",
+                      "net/url path decoding; chi routing (C15). NeedsLogin is machine-translated from autologin.go on each run (memo cache dropped) and PROVED to have the model's decision structure for any path.Clean / matcher (Ww.Proofs.GenTie.C12).",
         'technique': 'Lean 4 proof (matcher = inductive relation, by induction on patterns) + differential runs against doublestar / NeedsLogin / router',
         'trusted': ["doublestar v4.8.1 modelled (not verified) for the pattern alphabet; path.Clean modelled on segment lists"],
         'assumptions': ["patterns over {literal, *, **, /}"],
     },
     'C13': {
-        'proofs': ['Ww.Proofs.C13'],
-        'gen_sections': [],
+        'proofs': ['Ww.Proofs.C13', 'Ww.Proofs.GenTie.C13'],
+        'gen_sections': ['Dec/getAcrParam', 'Dec/getLocaleParam', 'Dec/getPromptParam', 'pkg/openid/client/login.go', 'pkg/openid/acr/acr.go'],
         'drivers': [{'name': 'c13'}],
         'reasons': ['C13.'],
         'class_fields': {'login13': ['variant', 'ep', 'status', 'hascookie', 'parcalled', 'p_acr', 'p_locale', 'p_prompt', 'p_redirect'], 'fresh13': ['dups']},
@@ -200,7 +200,7 @@ PROPS = {
         'level_text': "Proof: the authorization-request builder binds state/nonce/redirect_uri/S256(verifier) to the sealed cookie, names only a CONFIGURED ingress matching Host or X-Forwarded-Host (none => no request at all), and "
                       "emits only allowed acr_values / ui_locales / prompt values with max_age=0 on prompt - for all inputs; uniqueness of state/nonce/verifier across visits follows from an injective random source. Partial: unpredictability "
                       "(>= 256 bits) is an assumption on crypto/rand; the builder model is tied to the real endpoints by the driver, which also verifies client assertions and scans for credentials.",
-        'level_note': "Trusted: Lean kernel; crypto/rand (H-RND); S256 modelled as an injective symbol and recomputed in the harness; golang.org/x/oauth2 and url.Values encoding; fake provider as observer.",
+        'level_note': "Trusted: Lean kernel; crypto/rand (H-RND); S256 modelled as an injective symbol and recomputed in the harness; golang.org/x/oauth2 and url.Values encoding; fake provider as observer. getAcrParam / getLocaleParam / getPromptParam are machine-translated from login.go on each run and the model's acrParam / localeParam / promptParam are PROVED equal to the translations (Ww.Proofs.GenTie.C13).",
         'technique': 'Lean 4 proof of the request-builder decision logic + freshness from an injective oracle; differential runs incl. PAR bodies and assertion verification',
         'trusted': ["H-RND", "S256 as injective symbol"],
         'assumptions': ["H-RND"],
@@ -224,8 +224,8 @@ PROPS = {
         'assumptions': ["H-BROWSER"],
     },
     'C17': {
-        'proofs': ['Ww.Proofs.C17'],
-        'gen_sections': ['Consts'],
+        'proofs': ['Ww.Proofs.C17', 'Ww.Proofs.GenTie.C17'],
+        'gen_sections': ['Consts', 'Dec/retryCondition', 'Dec/nextRetryValue', 'pkg/handler/error.go'],
         'drivers': [{'name': 'cook'}],
         'reasons': ['C17.'],
         'class_fields': {'setcookie': ['op', 'class', 'clear'], 'jar': ['after'], 'retrychain': ['cause', 'statuses', 'sso'], 'retryreset': ['via', 'before', 'after'],
@@ -236,14 +236,14 @@ PROPS = {
         'level_text': "Proof: from any counter a browser can hold, at most three consecutive failures are answered with the retry redirect and the error page is terminal (induction over the failure run with a budget function; bound = the constant "
                       "regenerated from error.go); 429 is never retried; with a session exactly `logins` visits pass and all further ones are 429 (for every logins, by induction), the counter is untouched by a 429; off/without session never 429. "
                       "Model tied to the real handlers by following the chains.",
-        'level_note': "Trusted: Lean kernel; H-BROWSER (the retry cookie comes back: scope checked by C14 and by the chains). A host outside the SSO cookie domain makes the browser drop the counter cookie (endless 307): outside the quantifier, see DESIGN.",
+        'level_note': "Trusted: Lean kernel; H-BROWSER (the retry cookie comes back: scope checked by C14 and by the chains). A host outside the SSO cookie domain makes the browser drop the counter cookie (endless 307): outside the quantifier, see DESIGN. The retry condition and the counter increment are machine-translated from error.go on each run and the model's retryStep is PROVED equal to them (Ww.Proofs.GenTie.C17).",
         'technique': 'Lean 4 induction over failure runs / login runs of the counter state machines + chain-following differential runs',
         'trusted': ["H-BROWSER"],
         'assumptions': ["H-BROWSER"],
     },
     'C15': {
-        'proofs': ['Ww.Proofs.C15'],
-        'gen_sections': ['Routes', 'pkg/router/router.go', 'pkg/router/paths/paths.go'],
+        'proofs': ['Ww.Proofs.C15', 'Ww.Proofs.GenTie.C15'],
+        'gen_sections': ['Routes', 'pkg/router/router.go', 'pkg/router/paths/paths.go', 'Dec/isNavigationRequest', 'Dec/hasSecFetchMetadata', 'internal/http/request.go'],
         'drivers': [{'name': 'c15'}, {'name': 'hist'}],
         'reasons': ['C15.'],
         'class_fields': _merge(HIST_CLASS, {'route': ['sso', 'idporten', 'method', 'impl', 'nocache'], 'guard': ['ep', 'method', 'mode', 'dest', 'status'], 'errpage': ['ep', 'status']}),
@@ -256,7 +256,7 @@ PROPS = {
                       "the non-navigation guard, which answers 401 for every Fetch-metadata combination that is not a top-level navigation. chi's matching is modelled and tied against the real router; token "
                       "absence in responses and HTML escaping are checked on the implementation (monitor), not proved.",
         'level_note': "Trusted: Lean kernel; route-table extractor; chi v5 mount/static matching and unknown-method 405 (modelled, differential); html/template escaping (tested with hostile strings); "
-                      "RFC 3986 reading of 'under the subtree' (split on literal '/'; %2F is data). Non-standard methods (e.g. PROPFIND) are answered by chi's top-level 405 without the group middlewares: outside the quantifier, noted in DESIGN.",
+                      "RFC 3986 reading of 'under the subtree' (split on literal '/'; %2F is data). Non-standard methods (e.g. PROPFIND) are answered by chi's top-level 405 without the group middlewares: outside the quantifier, noted in DESIGN. IsNavigationRequest / HasSecFetchMetadata are machine-translated from internal/http/request.go on each run and the model's guard functions are PROVED equal to them (Ww.Proofs.GenTie.C15).",
         'technique': 'Lean 4: decide over the regenerated route table + routing theorem; differential routing against router.New',
         'trusted': ["chi v5 routing contract (Appendix C)", "html/template contextual escaping"],
         'assumptions': ["chi routes on RawPath when set, else Path"],
